@@ -97,6 +97,27 @@ def decSnapAccount (j : Json) : Except String SnapAccount := do
   pure { address := ← strField j "address", firstUsage := ← intField j "firstUsage",
          insertionDate := ← intField j "insertionDate", metadata := ← decObjMap ((optField j "metadata").getD .null) }
 
+structure SnapRev where
+  txId : Nat
+  address : String
+  revision : Nat
+  date : Int
+  metadata : Metadata
+
+def decSnapRev (j : Json) : Except String SnapRev := do
+  pure { txId := ← (match optField j "txId" with | some _ => natField j "txId" | none => pure 0),
+         address := optStrField j "address", revision := ← natField j "revision", date := ← intField j "date",
+         metadata := ← decObjMap ((optField j "metadata").getD .null) }
+
+/-- what the PIT read returns from a metadata-history table: the highest revision dated ≤ pit, `{}` if none -/
+def revAt (revs : List SnapRev) (pit : Int) : Metadata :=
+  match (revs.filter (fun r => r.date ≤ pit)).foldl
+      (fun (best : Option SnapRev) r => match best with
+        | none => some r
+        | some b => if b.revision < r.revision then some r else some b) none with
+  | some r => r.metadata
+  | none => []
+
 def section? (j : Json) (k : String) : Option (List Json) :=
   match j.getObjVal? k with
   | .ok (.arr a) => some a.toList
@@ -135,6 +156,12 @@ def handleHist : Handler := fun inp out => do
     | none => pure none
   let accts? ← match section? snap "accounts" with
     | some l => do pure (some (← l.mapM decSnapAccount))
+    | none => pure none
+  let txRevs? ← match section? snap "transactionsMetadata" with
+    | some l => do pure (some (← l.mapM decSnapRev))
+    | none => pure none
+  let accRevs? ← match section? snap "accountsMetadata" with
+    | some l => do pure (some (← l.mapM decSnapRev))
     | none => pure none
   -- agreement with the abstract store
   let avAgree := match av? with
@@ -194,6 +221,17 @@ def handleHist : Handler := fun inp out => do
           movesWindowVolumes rows { pit := some t } mode k == volumesAt recs { pit := some t } mode k &&
           movesWindowVolumes rows { oot := some t } mode k == volumesAt recs { oot := some t } mode k) &&
         (!ms.all (·.2) || effectiveVolumesAt rows k t == volumesAt recs { pit := some t } .effective k)
+  -- C17: metadata as of every recorded instant, from the REAL history tables, against `metaAt`
+  let metaInstants := instants ++ (w.ledger.events.filterMap fun e => match e with
+      | .metaWrite m => some m.date | .reverted _ a => some a | _ => none)
+  let c17t := match txRevs? with
+    | none => true
+    | some revs => recs.all fun t => metaInstants.all fun pit =>
+        revAt (revs.filter (·.txId == t.id)) pit == metaAt w.ledger (.tx t.id) (some pit)
+  let c17a := match accRevs? with
+    | none => true
+    | some revs => w.ledger.accounts.all fun a => metaInstants.all fun pit =>
+        revAt (revs.filter (·.address == a)) pit == metaAt w.ledger (.account a) (some pit)
   let c15 := match txs? with
     | none => true
     | some txs => txs.all fun t =>
@@ -207,7 +245,8 @@ def handleHist : Handler := fun inp out => do
           a.metadata == metaAt w.ledger (.account a.address) none
   let sig := first? [(c01, "C01:snapshot-not-conserved"), (c02, "C02:snapshot-volumes-not-fold"),
     (c03, "C03:snapshot-pcv-not-state-after"), (c03m, "C03:snapshot-moves-not-running"),
-    (c04, "C04:snapshot-pcev-invariant"), (c05, "C05:snapshot-moves-window-not-fold"), (c15, "C15:snapshot-revert-shape"), (c18, "C18:snapshot-accounts")]
+    (c04, "C04:snapshot-pcev-invariant"), (c05, "C05:snapshot-moves-window-not-fold"),
+    (c17t, "C17:snapshot-tx-metadata-history"), (c17a, "C17:snapshot-account-metadata-history"), (c15, "C15:snapshot-revert-shape"), (c18, "C18:snapshot-accounts")]
   let prop := sig == ""
   let disagreeAt := first? [(outcomeOk, "outcomes"), (avAgree, "accountsVolumes"), (txAgree, "transactions"),
     (movesAgree, "moves"), (acctAgree, "accounts")]
